@@ -69,6 +69,7 @@ fn gen(rng: &mut Rng, idx: u64, tier: Tier) -> Case {
         return Case { property: "C16".into(), mode: "long".into(), script, args_b: None, log_level_b: None, meta: serde_json::Value::Null };
     }
     let long = rng.chance(0.02);
+    if rng.chance(0.08) { args.push(format!("--display-info={}", rng.pick(&["Q", "aQ", "Qe"]))); }
     gen::add_neutral_options(rng, &mut args, false, false);
     let n = if long || (tier == Tier::Thorough && rng.chance(0.05)) { rng.range(270, 700) } else { rng.range(3, 60) } as usize;
     let mut lines: Vec<(i64, Vec<u8>, String)> = vec![];
